@@ -580,6 +580,7 @@ func checkHistory(c *run.Ctx, u *Universe, cs *ConcCase, hist []COp, st *concSta
 		w := *cs
 		w.Hist = hist
 		w.What = msg + " | history: " + fmtHist(hist) + " | universe: " + fmtUniverse(cs.U, progOps(cs))
+		c.Stat("violations "+class, 1)
 		c.Violation(class, w.What, &w)
 	}
 	for _, o := range hist {
